@@ -79,7 +79,10 @@ def validate_trace(run, module, path, nontrivial=None, what="no behaviour of the
         bad = set(res.get("bad", []))
         run.extra["outside_pinned_semantics"] = run.extra.get("outside_pinned_semantics", 0) + res.get("dev", 0)
         for c in cases:
-            key = json.dumps(c.get("src", c), sort_keys=True) + json.dumps(c.get("vars", c.get("vl", "")), sort_keys=True)
+            if "a" in c and "op" in c:
+                key = json.dumps([c.get("op"), c.get("form"), c.get("a"), c.get("b")], sort_keys=True)
+            else:
+                key = json.dumps(c.get("src", c), sort_keys=True) + json.dumps(c.get("vars", c.get("vl", "")), sort_keys=True)
             nt = True if nontrivial is None else bool(nontrivial(c))
             run.note_case(key, nt)
             if c["id"] in bad:
@@ -215,3 +218,52 @@ def c03(run):
     run.exhaustive = True
     path = drive_eval(run, "c03", run.q(2500, 60000), depth=run.q(5, 6))
     validate_trace(run, "CelEvalTrace", path, nontrivial=lambda c: json.dumps(c.get("ast")).count('"k"') >= 3)
+
+
+# ----------------------------------------------------------------------------------------------
+# operator-application families (C08, C09, C14)
+
+def drive_ops(run, family):
+    path = run.work("ops_%s_%d.ndjson" % (family, run.seed))
+    celconf(["drive-ops", "--family", family, "--seed", run.seed, "--tier", run.tier, "--out", path])
+    return path
+
+
+def op_sample(c):
+    return {"op": c.get("op"), "form": c.get("form"), "src": c.get("src"), "a": c.get("a"), "b": c.get("b"), "out": c.get("out")}
+
+
+@check("C08")
+def c08(run):
+    run.rule = ("model: every pair of 6-bit signed and unsigned values (all 4096+4096) and every pair of a 64-bit boundary set, "
+                "invariants AgreesWithNative / Laws on Num64; impl->spec: every ordered pair of the i64 and u64 boundary sets under "
+                "+ - * / % and unary minus, spelled as literals, as context variables and through the host-side operators, mixed kinds, "
+                "random uniform and log-uniform pairs; a case is non-trivial unless both operands are 0 or 1")
+    model_check(run, "Num64MC", cfg=run.q("Num64MC_q", "Num64MC"), workers=8)
+    run.exhaustive = True
+    path = drive_ops(run, "c08")
+
+    def nt(c):
+        small = lambda v: v.get("t") in ("int", "uint") and v["n"]["m"] in ([], [1])
+        return not (small(c["a"]) and small(c["b"]))
+    validate_trace(run, "CelOpTrace", path, nontrivial=nt, sample_key=op_sample,
+                   what="operator application: outcome differs from the exact-or-error semantics of Num64")
+
+
+@check("C09")
+def c09(run):
+    run.rule = ("model: Eq/Cmp of the specification over a 55-value boundary pool, all pairs (quick) and all triples (thorough), laws as invariants; "
+                "impl->spec: the implementation's complete observed table of the six relations over an ~90-value pool (every ordered pair) is checked "
+                "cell by cell against Cmp/Eq and, independently, against the coherence laws themselves (CelCmpLaws); plus in, min, max, host-side eq/partial_cmp; "
+                "non-trivial = operands of different kinds or numerically close")
+    model_check(run, "CelCmpMC", cfg=run.q("CelCmpMC_q", "CelCmpMC"), workers=12)
+    run.exhaustive = True
+    tab = run.work("cmp_table.ndjson")
+    celconf(["drive-ops", "--family", "cmp-table", "--out", tab])
+    validate_trace(run, "CelCmpLaws", tab, chunk=1000000, jobs=1, sample_key=lambda c: {k: c[k] for k in ("a", "b", "eq", "ne", "lt", "le", "gt", "ge")},
+                   nontrivial=lambda c: c["a"]["t"] != c["b"]["t"] or c["ia"] != c["ib"],
+                   what="observed relation table violates a coherence law of C09 (see the record: outcomes T/F/E/P of == != < <= > >=)")
+    path = drive_ops(run, "c09")
+    validate_trace(run, "CelOpTrace", path, sample_key=op_sample,
+                   nontrivial=lambda c: c["a"]["t"] != c["b"].get("t") or c["a"] != c["b"],
+                   what="relation / membership / min / max outcome differs from the exact semantics of CelValue!Cmp / Eq")
